@@ -25,6 +25,9 @@ def known_constants():
     return _KNOWN
 
 
+DICT_TABLES = {}      # module -> {name: ast.Dict} read-only lookup tables found by _collect (reset by propagate)
+
+
 def _literal(e, depth=0):
     if isinstance(e, ast.Constant):
         return not isinstance(e.value, type(Ellipsis))
@@ -98,6 +101,9 @@ def _collect(mname, tree):
             nm = st.targets[0].id
             if nm not in known and not (nm.startswith("__") and nm.endswith("__")) and stores.get(nm, 0) == 1 and _literal(st.value):
                 mod_c[nm] = st.value
+            elif nm not in known and stores.get(nm, 0) == 1 and isinstance(st.value, ast.Dict) and st.value.keys and \
+                    all(k is not None and (_literal(k) or isinstance(k, ast.Name)) for k in st.value.keys) and all(_literal(v) for v in st.value.values):
+                DICT_TABLES.setdefault(mname, {})[nm] = st.value
     attr_stores = set()
     for x in ast.walk(tree):
         if isinstance(x, ast.Attribute) and isinstance(x.ctx, (ast.Store, ast.Del)):
@@ -227,8 +233,52 @@ class _FoldSubscript(ast.NodeTransformer):
         return node
 
 
+_MUTATORS = ("update", "setdefault", "pop", "popitem", "clear", "__setitem__", "__delitem__")
+
+
+def _table_mutated(trees, name):
+    for t in trees.values():
+        for x in ast.walk(t):
+            tgt = None
+            if isinstance(x, ast.Subscript) and isinstance(x.ctx, (ast.Store, ast.Del)):
+                tgt = x.value
+            elif isinstance(x, ast.Call) and isinstance(x.func, ast.Attribute) and x.func.attr in _MUTATORS:
+                tgt = x.func.value
+            if tgt is not None and ((isinstance(tgt, ast.Name) and tgt.id == name) or (isinstance(tgt, ast.Attribute) and tgt.attr == name)):
+                return True
+    return False
+
+
+class _FoldTables(ast.NodeTransformer):
+    """TABLE[<literal key>] -> the literal value, for read-only module-level dictionaries of literals"""
+
+    def __init__(self, mname, tables, aliases):
+        self.mname, self.tables, self.aliases = mname, tables, aliases
+        self.count = 0
+
+    def visit_Subscript(self, node):
+        self.generic_visit(node)
+        if not isinstance(node.ctx, ast.Load):
+            return node
+        v = node.value
+        tab = None
+        if isinstance(v, ast.Name):
+            tab = self.tables.get(self.mname, {}).get(v.id)
+        elif isinstance(v, ast.Attribute) and isinstance(v.value, ast.Name) and v.value.id in self.aliases:
+            tab = self.tables.get(self.aliases[v.value.id], {}).get(v.attr)
+        if tab is None or not _literal(node.slice):
+            return node
+        key = ast.dump(node.slice)
+        for k, val in zip(tab.keys, tab.values):
+            if ast.dump(k) == key:
+                self.count += 1
+                return ast.copy_location(copy.deepcopy(val), node)
+        return node
+
+
 def propagate(trees):
     """in place; -> {module: number of substitutions}"""
+    DICT_TABLES.clear()
     mods = dict((m, _collect(m, t)) for m, t in trees.items())
     # constants of module M qualified for use from another module: chains rooted at M's own import aliases are kept as they are
     # only when they are plain literals (a foreign `utils.ListType` element would need re-qualifying)
@@ -267,4 +317,17 @@ def propagate(trees):
             _FoldSubscript().visit(tree)
             ast.fix_missing_locations(tree)
             done[m] = sub.count
+    # read-only tables: keys that are names of constants have been replaced above (inside the defining module too)
+    tables = {}
+    for m, tabs in DICT_TABLES.items():
+        for nm, d in tabs.items():
+            if not _table_mutated(trees, nm) and all(_literal(k) for k in d.keys):
+                tables.setdefault(m, {})[nm] = d
+    if tables:
+        for m, tree in trees.items():
+            ft = _FoldTables(m, tables, _module_aliases(tree))
+            ft.visit(tree)
+            if ft.count:
+                ast.fix_missing_locations(tree)
+                done[m] = done.get(m, 0) + ft.count
     return done
